@@ -1,7 +1,7 @@
 """C04 — range membership equals the interval-set meaning of the vers constraints."""
 import random
 
-from harness import common, core, vers
+from harness import common, core, dense, vers
 
 
 def run(ctx):
@@ -121,13 +121,16 @@ def run(ctx):
             diffs.append(dict(what="vm_compute and extracted driver disagree", n_vm=len(digits), n_driver=len(want)))
     else:
         diffs.append(dict(what="in-Coq evaluation failed", err=(out + err)[-400:]))
+    # ---- the same statement on dense families of versions (one edit apart, equal under another spelling): harness/dense.py
+    dense_ev, dense_per = dense.run(ctx, "C04", r, lambda what, **kw: violations.append(dict(kind="counterexample", stage="search", what=what, **kw)))
+    evals += dense_ev
     if not violations and (diffs or not proofs["ok"]):
         what = ("theorems of Props/C04.v no longer check: " + str(proofs.get("error"))[-400:]) if not proofs["ok"] else \
             ("model and implementation differ (only outside well-formed ranges, or the spec agrees with both): " + str(diffs[0]))
         violations.append(dict(kind="no-failing-input-found", stage="proof" if not proofs["ok"] else "correspondence",
                                theorem_or_stream="Props/C04.v" if not proofs["ok"] else "contains_version vs Model.contains",
                                what=what, diffs=diffs[:10]))
-    cov = dict(evaluations=evals, distinct_nontrivial=len(nontrivial),
+    cov = dict(evaluations=evals, dense_pairs=dense_per, distinct_nontrivial=len(nontrivial),
                rule=f"all 6^n comparator patterns n<={N} (plus '*') x all 2n+1 probe positions (at/between/around every constraint version), "
                     f"{nrand} random longer patterns (n<={maxlen}, mostly well-formed, 30% with one mutated comparator), each instantiated on "
                     f"{len(schemes)} schemes with versions drawn from the scheme grammar and sorted by the implementation; "
